@@ -350,17 +350,34 @@ Fixpoint next_candidates (fuel : nat) (s : state) (i : iref) (lastkeys : option 
   end.
 
 Definition hinted_task (s : state) (w : wref) : option nat :=
-  match find (fun '(_, w') => wref_eqb w w') (s_hints s) with
+  match find (fun '(o, w') => wref_eqb w w' && Nat.ltb o 4000) (s_hints s) with
   | Some (o, _) => if op_alive s o then Some (o_task (get_op s o)) else None
+  | None => None
+  end.
+
+(* Two invocations of one task can both be admissible paths to it and differ
+   in the number of stickiness levels retained (which only decides which
+   stickiness start times are reset): a hint pair whose operation component
+   is 4000 + r tells which r the implementation retained. *)
+Definition hinted_retained (s : state) (w : wref) : option nat :=
+  match find (fun '(o, w') => wref_eqb w w' && Nat.leb 4000 o) (s_hints s) with
+  | Some (o, _) => Some (o - 4000)%nat
   | None => None
   end.
 
 Definition pick_next (s : state) (w : wref) (cands : list (nat * nat)) : option (nat * nat) :=
   match hinted_task s w with
-  | Some t => match find (fun '(t', _) => Nat.eqb t t') cands with
-              | Some c => Some c
-              | None => hd_error cands
-              end
+  | Some t =>
+    let same := filter (fun '(t', _) => Nat.eqb t t') cands in
+    let preferred := match hinted_retained s w with
+                     | Some r => find (fun '(_, r') => Nat.eqb r r') same
+                     | None => None
+                     end in
+    match preferred, same with
+    | Some c, _ => Some c
+    | None, c :: _ => Some c
+    | None, [] => hd_error cands
+    end
   | None => hd_error cands
   end.
 
